@@ -1,5 +1,5 @@
 (* C07 driver.  One case per line:
-     case TAB v_rm TAB v_init TAB path(,) TAB names(,);versions(,);tags(,);flavors(,);usertags(,) TAB proc|proc|...
+     case TAB v_rm TAB v_init TAB path(,) TAB names(,);versions(,);tags(,);flavors(,);usertags(,);user=tag,tag+user=tag,tag TAB proc|proc|...
           TAB v_uloc TAB v_ustale TAB v_noread TAB v_shared
    proc = P;user;admin;flavor;crash;q;op&op&...      crash = ~ or i,g,b     q = 0/1    admin = 0/1
         | X;loc;stack;flavor                  an outside deletion of a cache file
@@ -77,24 +77,28 @@ let show_loaded (m : (ascii list * pstack) list) : Stdlib.String.t =
   cat ";" (Stdlib.List.map (fun (s, ps) ->
     enc_str s ^ "=" ^ cat "," (Stdlib.List.map (fun (f, _) -> enc_str f) ps.ps_lookup)) m)
 
-let answers (path, names, versions, tags) (utags : ascii list list) (u : ascii list) (qfl : ascii list list) (w : world)
+let answers (path, names, versions, tags) (utags : ascii list list) (own : ascii list list) (u : ascii list) (qfl : ascii list list) (w : world)
     (m : (ascii list * pstack) list) : Stdlib.String.t =
   let out = ref [] in
   let add l = out := cat "," l :: !out in
-  let umodes = [("c", (fun q -> uq_cache m q)); ("f", (fun q -> uq_db w u q))] in
-  Stdlib.List.iter (fun (mode, ask) ->
+  (* user tags.  Through the cache: the user:t entries of the loaded families.  From the files: product.tags lists
+     user:t for the chain files of the tag directory (UH); findTaggedProduct(t) reads a chain file of that name
+     among the stack's own first, then the tag directory (UT, UG) *)
+  let umodes = [("c", (fun q -> uq_cache m q), (fun q -> uq_cache m q));
+                ("f", (fun q -> uq_db w u q), (fun q -> uq_files w u q))] in
+  Stdlib.List.iter (fun (mode, askh, askt) ->
     Stdlib.List.iter (fun n -> Stdlib.List.iter (fun f -> Stdlib.List.iter (fun t ->
       Stdlib.List.iter (fun s ->
         Stdlib.List.iter (fun v ->
-          match ask (UQHasTag (s, n, v, t, f)) with
+          match askh (UQHasTag (s, n, v, t, f)) with
           | ABool true -> add ["UH"; mode; enc_str s; enc_str n; enc_str v; enc_str t; enc_str f]
           | _ -> ()) versions;
-        (match ask (UQTagged (s, n, t, f)) with
+        (match askt (UQTagged (s, n, t, f)) with
          | AVer (Some v) -> add ["UT"; mode; enc_str s; enc_str n; enc_str t; enc_str f; enc_str v]
          | _ -> ())) path;
-      (match ask (UQFindTagged (n, t, f)) with
+      (match askt (UQFindTagged (n, t, f)) with
        | AStackVer (Some (s, v)) -> add ["UG"; mode; enc_str n; enc_str t; enc_str f; enc_str s; enc_str v]
-       | _ -> ())) utags) qfl) names) umodes;
+       | _ -> ())) own) qfl) names) umodes;
   let modes = [("c", (fun q -> q_cache m q)); ("f", (fun q -> q_db w q))] in
   Stdlib.List.iter (fun (mode, ask) ->
     Stdlib.List.iter (fun n -> Stdlib.List.iter (fun f ->
@@ -104,10 +108,11 @@ let answers (path, names, versions, tags) (utags : ascii list list) (u : ascii l
           (match ask (QDir (s, n, v, f)) with
            | ARec (Some (d, tb)) -> add ["D"; mode; enc_str s; enc_str n; enc_str v; enc_str f; enc_str d; enc_str tb]
            | _ -> ());
+          (* product.tags lists every chain file of the stack, whatever its name: also one named like a user tag *)
           Stdlib.List.iter (fun t ->
             match ask (QHasTag (s, n, v, t, f)) with
             | ABool true -> add ["H"; mode; enc_str s; enc_str n; enc_str v; enc_str t; enc_str f]
-            | _ -> ()) tags) path;
+            | _ -> ()) (tags @ utags)) path;
         (match ask (QFind (n, v, f)) with
          | AStackRec (Some (s, (d, tb))) -> add ["F"; mode; enc_str n; enc_str v; enc_str f; enc_str s; enc_str d; enc_str tb]
          | _ -> ())) versions;
@@ -138,7 +143,20 @@ let handle (f : Stdlib.String.t array) : Stdlib.String.t =
         | [a; b; c; d] -> ((path, dec_strlist ',' a, dec_strlist ',' b, dec_strlist ',' c), dec_strlist ',' d, [])
         | [a; b; c; d; e] -> ((path, dec_strlist ',' a, dec_strlist ',' b, dec_strlist ',' c), dec_strlist ',' d,
                               dec_strlist ',' e)
+        | [a; b; c; d; e; _] -> ((path, dec_strlist ',' a, dec_strlist ',' b, dec_strlist ',' c), dec_strlist ',' d,
+                                 dec_strlist ',' e)
         | _ -> failwith "bad universe") in
+    (* the user tags every user has registered: user=tag,tag+user=tag,tag (a reader asks about his own) *)
+    let own_tags (u : ascii list) : ascii list list =
+      match Stdlib.String.split_on_char ';' f.(4) with
+      | [_; _; _; _; all; per] ->
+        (try
+           let entry = Stdlib.List.find (fun e -> match Stdlib.String.split_on_char '=' e with
+               | [x; _] -> dec_str x = u | _ -> false) (split_sep '+' per) in
+           (match Stdlib.String.split_on_char '=' entry with [_; l] -> dec_strlist ',' l | _ -> [])
+         with Not_found -> [])
+      | [_; _; _; _; all] -> dec_strlist ',' all
+      | _ -> [] in
     let w = ref (init_world path) in
     let segs = Stdlib.List.map (fun ps ->
         let a = Array.of_list (Stdlib.String.split_on_char ';' ps) in
@@ -159,7 +177,7 @@ let handle (f : Stdlib.String.t array) : Stdlib.String.t =
           w := w';
           let crashed = Stdlib.List.exists (fun o -> o = OCrashed) ocs in
           (* every flavor of the universe is asked about, consulted by this instance or not *)
-          let ans = if a.(5) = "1" && not crashed then answers univ utags u (uniq_l (fallbacks fl @ allfl)) w' m else "" in
+          let ans = if a.(5) = "1" && not crashed then answers univ utags (own_tags u) u (uniq_l (fallbacks fl @ allfl)) w' m else "" in
           cat "#" [cat "," (Stdlib.List.map show_outcome ocs); show_records w'; show_pickles w';
                    (if crashed then "" else show_loaded m); ans; show_urecords w']
         | _ -> failwith "bad proc") (split_sep '|' f.(5)) in
